@@ -450,8 +450,11 @@ template<size_t Limit> static void logger_test(Enumerator &E) {
 template<class MakeSink, class Read> static void sink_case(Enumerator &E, const std::string &name, MakeSink mk, Read read) {
 	for(size_t len = 0; len <= 40; len++) E.eval(name + " len=" + std::to_string(len), "sinks", [&] {
 		std::string msg; for(size_t i = 0; i < len; i++) msg.push_back("abcdefghijklmnopqrstuvwxyz"[i % 26]);
-		std::string expect = msg + "|-89|" + msg + "|00ff|x|1234567|" + "18446744073709551615|-9223372036854775808";
-		std::string got = mk([&](auto &&out) { out << msg.c_str() << "|" << -89 << "|" << frg::string_view(msg.data(), msg.size()) << "|" << frg::fmt("{:04x}", 255) << "|" << frg::char_fmt('x') << "|" << 1234567u << "|" << 18446744073709551615ull << "|" << (-9223372036854775807ll - 1); });
+		std::string expect = msg + "|-89|" + msg + "|00ff|x|1234567|" + "18446744073709551615|-9223372036854775808" + "|0x1234|0x0|ff|" + msg + "|a\\n\\x{1}\\\\|" + msg;
+		static const int fmt_ff = 255;
+		frg::string<frg::stl_allocator> fs(msg.c_str());
+		std::string got = mk([&](auto &&out) { out << msg.c_str() << "|" << -89 << "|" << frg::string_view(msg.data(), msg.size()) << "|" << frg::fmt("{:04x}", 255) << "|" << frg::char_fmt('x') << "|" << 1234567u << "|" << 18446744073709551615ull << "|" << (-9223372036854775807ll - 1)
+			<< "|" << (const void *)0x1234 << "|" << nullptr << "|" << frg::hex_fmt<int>(fmt_ff) << "|" << fs << "|" << frg::escape_fmt("a\n\x01\\", 4) << "|" << std::string_view(msg); });
 		(void)read;
 		if(got != expect) throw Violation{"C19", "sinks:text-lost:" + name, name + " received \"" + got + "\" for \"" + expect + "\""};
 	});
